@@ -196,6 +196,16 @@ def main():
         if path is None:
             problems.append(('infra', f'harness build {b} failed (the crate no longer builds or its public API changed)', err)); continue
         bins[b] = path
+    if cfg.get('regen') and 'default' in bins:
+        for sub, rel in (('builtins-table', 'SlacModel/Generated/Builtins.lean'), ('dispatch-table', 'SlacModel/Generated/Dispatch.lean')):
+            r = subprocess.run([bins['default'], sub], stdout=subprocess.PIPE, stderr=subprocess.DEVNULL, env=ENV, timeout=600)
+            new = r.stdout.decode()
+            path = os.path.join(LEAN, rel)
+            with Lock('lake'):
+                if r.returncode == 0 and new.strip() and (not os.path.exists(path) or open(path).read() != new):
+                    open(path, 'w').write(new)
+            if r.returncode != 0:
+                problems.append(('infra', f'table generator {sub} failed (rc={r.returncode})', ''))
     ok, out = lake_build(['driver'] + cfg['modules'])
     proof_ok = ok
     if not ok:
@@ -224,6 +234,14 @@ def main():
             body = open(inp).read(); open(inp, 'w').write(open(corpus).read() + body)
         ts = time.time()
         lines, exp, crashes = run_impl(bins[build], inp, os.path.join(workdir, f'{name}-{build}.exp'), st.get('case_timeout', 10.0))
+        if st.get('repeat_process'):
+            _, exp2, _ = run_impl(bins[build], inp, os.path.join(workdir, f'{name}-{build}.exp2'), st.get('case_timeout', 10.0))
+            for k, line in enumerate(lines):
+                a = exp[k] if k < len(exp) else 'missing'; b = exp2[k] if k < len(exp2) else 'missing'
+                falsifier_cases += 1
+                if a != b and not a.startswith('ok impure'):
+                    problems.append(('impl-violation', f'stream {name}: the same call answered `{a[:150]}` in one process and `{b[:150]}` in another',
+                                     dict(stream=name, build=build, lines=[line], expected=a, actual=b, view='full', oracle='none')))
         if st.get('model', True):
             out, rc = run_model(inp, os.path.join(workdir, f'{name}-{build}.out'))
         else:
